@@ -30,11 +30,13 @@ Definition mp_nbytes (v : Z) : Z :=
   let l' := if (l mod 8 =? 0) && negb (v =? 0) && negb (v =? - 2 ^ (l - 1)) then l + 1 else l in
   (l' + 7) / 8.
 
-(* value.to_bytes(n, 'big', signed=True): the n low-order bytes of the two's complement *)
+(* value.to_bytes(n, 'big', signed=True): the n low-order bytes of the two's complement
+   (Z.land v 255 = v mod 256 and Z.shiftr v 8 = v / 256, floor semantics; the bit operations are
+   linear in the size of v where division is quadratic, which matters for 8192-bit group elements) *)
 Fixpoint be_acc (n : nat) (v : Z) (acc : bytes) : bytes :=
   match n with
   | O => acc
-  | S k => be_acc k (v / 256) (v mod 256 :: acc)
+  | S k => be_acc k (Z.shiftr v 8) (Z.land v 255 :: acc)
   end.
 Definition be (n : nat) (v : Z) : bytes := be_acc n v [].
 
